@@ -25,8 +25,8 @@ using namespace vf; using namespace mxh;
 using p13::Step;
 
 // ------------------------------------------------------------------------------------------------ domain
-struct Dom { bool vclient; bool cauth; int cert; };   // cert: 0 = RSA identities, 1 = ECDSA P-256 identities
-static std::string dom_str(const Dom &d) { return fmt("victim=%s cauth=%d cert=%s", d.vclient ? "client" : "server", d.cauth, d.cert ? "ec" : "rsa"); }
+struct Dom { bool vclient; bool cauth; int cert; bool hrr; };   // cert: 0 = RSA identities, 1 = ECDSA P-256 identities; hrr: handshake with a HelloRetryRequest round
+static std::string dom_str(const Dom &d) { return fmt("victim=%s cauth=%d cert=%s%s", d.vclient ? "client" : "server", d.cauth, d.cert ? "ec" : "rsa", d.hrr ? " hrr" : ""); }
 
 static p13::IdentityPtr ident(bool server, int cert) {
     static p13::IdentityPtr ids[2][2];
@@ -50,7 +50,9 @@ struct Item {
     bool deviated = false;  // produced or touched by a deviation
     bool span = false;      // illegally shares a record with the next message across a key change
     bool empty_cert = false;
+    bool malformed = false; // body cannot be parsed as the type it claims (and the puppet leaves it out of its transcript, as an attacker would)
     int wire_type() const { return st.type_override >= 0 ? st.type_override : body; }
+    bool is_hrr() const { return st.msg == p13::M_HELLO_RETRY_REQUEST; }
 };
 
 static int natural_type(int msg) {
@@ -84,11 +86,12 @@ static std::string item_str(const Item &it) {
     std::string s;
     if (it.kind == K_CCS) s = std::string("CCS(") + ccs_name[it.ccs] + ")";
     else if (it.kind == K_APPDATA) s = "AppData";
-    else { s = p13::hs_type_name(it.body); if (it.st.type_override >= 0) s += std::string("->type:") + std::to_string(it.st.type_override); }
+    else { s = it.is_hrr() ? "HelloRetryRequest" : p13::hs_type_name(it.body); if (it.st.type_override >= 0) s += std::string("->type:") + std::to_string(it.st.type_override); }
     static const char *kn[] = { "plain", "hs", "app", "wrong" };
     if (it.kind != K_CCS) s += std::string("/") + (it.st.keys >= 0 && it.st.keys <= 3 ? kn[it.st.keys] : "auto");
     if (it.st.flip_bit >= 0) s += fmt("/flip%ld%s", it.st.flip_bit, it.st.flip_body_only ? "" : "h");
     if (it.empty_cert) s += "/empty";
+    if (it.malformed) s += "/junk";
     if (it.span) s += "/span";
     if (it.st.coalesce) s += "+";
     if (it.st.max_frag) s += fmt("/frag%zu", it.st.max_frag);
@@ -102,6 +105,7 @@ static std::string items_str(const std::vector<Item> &v) { std::string s; for (a
 static std::vector<Item> legal_trace(const Dom &d) {
     std::vector<Item> v;
     if (d.vclient) {
+        if (d.hrr) v.push_back(hs_item(p13::M_HELLO_RETRY_REQUEST, p13::EP_PLAIN));
         v.push_back(hs_item(p13::M_SERVER_HELLO, p13::EP_PLAIN));
         v.push_back(hs_item(p13::M_ENCRYPTED_EXTENSIONS, p13::EP_HANDSHAKE));
         if (d.cauth) v.push_back(hs_item(p13::M_CERTIFICATE_REQUEST, p13::EP_HANDSHAKE));
@@ -110,6 +114,7 @@ static std::vector<Item> legal_trace(const Dom &d) {
         v.push_back(hs_item(p13::M_FINISHED, p13::EP_HANDSHAKE));
     } else {
         v.push_back(hs_item(p13::M_CLIENT_HELLO, p13::EP_PLAIN));
+        if (d.hrr) v.push_back(hs_item(p13::M_CLIENT_HELLO, p13::EP_PLAIN));   // the victim answers the first one with a HelloRetryRequest
         if (d.cauth) { v.push_back(hs_item(p13::M_CERTIFICATE, p13::EP_HANDSHAKE)); v.push_back(hs_item(p13::M_CERTIFICATE_VERIFY, p13::EP_HANDSHAKE)); }
         v.push_back(hs_item(p13::M_FINISHED, p13::EP_HANDSHAKE));
     }
@@ -126,7 +131,7 @@ struct Verdict {
     bool cert_requested = false;   // an accepted CertificateRequest is part of the trace
     bool accepts() const { return complete_at >= 0; }
 };
-enum St { ST_HELLO, ST_EE, ST_CERT_CR, ST_CERT, ST_CV, ST_FIN, ST_DONE };
+enum St { ST_HELLO, ST_HELLO2, ST_EE, ST_CERT_CR, ST_CERT, ST_CV, ST_FIN, ST_DONE };   // ST_HELLO2: hello after a HelloRetryRequest
 // lenient = a message with a legal type but a body built for another type is treated as accepted when the type is EncryptedExtensions or
 // CertificateRequest (no cryptographic check stands behind their parsers; whether a garbage body is refused is parser strictness = C08/C10,
 // not sequence legality).  The run follows the strict verdict if the victim refuses such a message and the lenient one if it takes it.
@@ -143,20 +148,32 @@ static Verdict model(const Dom &d, const std::vector<Item> &items, bool lenient 
         }
         if (it.kind == K_APPDATA) { bad(i, "application-data-before-finished"); break; }
         int wt = it.wire_type();
-        int want_keys = st == ST_HELLO ? p13::EP_PLAIN : p13::EP_HANDSHAKE;
+        int want_keys = (st == ST_HELLO || st == ST_HELLO2) ? p13::EP_PLAIN : p13::EP_HANDSHAKE;
         if (it.st.keys != want_keys) {
             bad(i, wt == p13::HS_FINISHED && it.st.keys == p13::EP_PLAIN && st == ST_FIN ? "plaintext-finished" : it.st.keys == p13::EP_PLAIN ? "plaintext-message-after-hello" : "wrong-record-keys"); break;
         }
         bool header_flip = it.st.flip_bit >= 0 && !it.st.flip_body_only;
         int next = -1;
         switch (st) {
-        case ST_HELLO: if (wt == (d.vclient ? p13::HS_SERVER_HELLO : p13::HS_CLIENT_HELLO)) next = d.vclient ? ST_EE : (d.cauth ? ST_CERT : ST_FIN); break;
+        case ST_HELLO:
+        case ST_HELLO2:
+            if (wt != (d.vclient ? p13::HS_SERVER_HELLO : p13::HS_CLIENT_HELLO)) break;
+            if (d.vclient && it.is_hrr() && it.body == wt) {
+                // RFC 8446 4.1.4: one HelloRetryRequest that changes the ClientHello is legal; a second one is fatal.  The puppet only asks for a
+                // group the victim offered no share for when the domain point says hrr.
+                if (st == ST_HELLO && d.hrr && it.st.flip_bit < 0) next = ST_HELLO2;
+                else { bad(i, st == ST_HELLO2 ? "second-hello-retry-request" : "hello-retry-request-without-change"); }
+                break;
+            }
+            if (!d.vclient && d.hrr && st == ST_HELLO) { next = ST_HELLO2; break; }   // the server victim answers this ClientHello with a HelloRetryRequest
+            next = d.vclient ? ST_EE : (d.cauth ? ST_CERT : ST_FIN); break;
         case ST_EE: if (wt == p13::HS_ENCRYPTED_EXTENSIONS) next = ST_CERT_CR; break;
         case ST_CERT_CR: if (wt == p13::HS_CERTIFICATE_REQUEST) next = ST_CERT; else if (wt == p13::HS_CERTIFICATE) next = ST_CV; break;
         case ST_CERT: if (wt == p13::HS_CERTIFICATE) next = ST_CV; break;
         case ST_CV: if (wt == p13::HS_CERTIFICATE_VERIFY) next = ST_FIN; break;
         case ST_FIN: if (wt == p13::HS_FINISHED) next = ST_DONE; break;
         }
+        if (v.first_bad >= 0) break;
         if (next < 0) {
             std::string why = "unexpected-message";
             if (wt == p13::HS_FINISHED && st == ST_CV) why = "skipped-certificate-verify";
@@ -165,6 +182,10 @@ static Verdict model(const Dom &d, const std::vector<Item> &items, bool lenient 
             else if (wt == p13::HS_NEW_SESSION_TICKET) why = "new-session-ticket-before-finished";
             else if (wt == p13::HS_KEY_UPDATE) why = "key-update-before-finished";
             bad(i, why, !header_flip); break;
+        }
+        if (it.malformed || (it.body != wt && (wt == p13::HS_SERVER_HELLO || wt == p13::HS_CLIENT_HELLO))) {
+            // RFC 8446 s6.2: a message that cannot be parsed is fatal (decode_error); it must not be skipped
+            bad(i, wt == p13::HS_SERVER_HELLO ? "malformed-server-hello" : wt == p13::HS_CLIENT_HELLO ? "malformed-client-hello" : "malformed-message"); break;
         }
         if (it.body != wt) {
             bool soft = wt == p13::HS_ENCRYPTED_EXTENSIONS || wt == p13::HS_CERTIFICATE_REQUEST;
@@ -189,6 +210,7 @@ static std::string root_sig(const std::string &why, bool completed) {
     if (why == "ccs-before-client-hello") return "tls13-ccs-before-client-hello-ignored";
     if (why == "new-session-ticket-before-finished") return "tls13-new-session-ticket-accepted-before-finished";
     if (why == "message-spans-key-change") return "tls13-message-spanning-key-change-accepted";
+    if (why == "malformed-server-hello") return "tls13-malformed-server-hello-ignored";
     if (!completed) return "tls13-illegal-message-not-rejected-on-arrival";
     if (why == "skipped-certificate-verify") return "tls13-completed-with-skipped-certificate-verify";
     if (why == "skipped-client-certificate" || why == "skipped-server-certificate") return "tls13-completed-with-skipped-certificate";
@@ -204,9 +226,9 @@ static std::string root_sig(const std::string &why, bool completed) {
 // ------------------------------------------------------------------------------------------------ deviations
 enum Op { OP_DELETE, OP_DUP, OP_SWAP, OP_SUBST, OP_INJECT, OP_FLIP, OP_CLEAR, OP_WRONGKEYS, OP_APPDATA, OP_CCS, OP_SKIP_AUTH, OP_EMPTY_CERT, OP_SPAN, OP_N };
 static const char *op_name[] = { "delete", "duplicate", "swap", "substitute-type", "inject", "flip-bit", "send-in-clear", "wrong-keys", "appdata-before-finished", "ccs", "skip-cert+cv", "empty-certificate", "span-key-change" };
-enum Foreign { F_SKE, F_SHD, F_CKE, F_HELLO_REQUEST, F_KEY_UPDATE, F_EOED, F_NST, F_CERT_REQ, F_CH2, F_SH2, F_EE, F_CERT, F_CV, F_FIN, F_UNKNOWN, F_MSG_HASH, F_N };
+enum Foreign { F_SKE, F_SHD, F_CKE, F_HELLO_REQUEST, F_KEY_UPDATE, F_EOED, F_NST, F_CERT_REQ, F_CH2, F_SH2, F_EE, F_CERT, F_CV, F_FIN, F_UNKNOWN, F_MSG_HASH, F_JUNK_HELLO, F_N };
 static const char *foreign_name[] = { "ServerKeyExchange", "ServerHelloDone", "ClientKeyExchange", "HelloRequest", "KeyUpdate", "EndOfEarlyData", "NewSessionTicket", "CertificateRequest",
-                                      "ClientHello", "ServerHello", "EncryptedExtensions", "Certificate", "CertificateVerify", "Finished", "type-99", "message_hash" };
+                                      "ClientHello", "ServerHello", "EncryptedExtensions", "Certificate", "CertificateVerify", "Finished", "type-99", "message_hash", "junk-hello" };
 static const int subst_types[] = { 0, 1, 2, 4, 5, 8, 11, 12, 13, 14, 15, 16, 20, 24, 99 };
 static const int N_SUBST = sizeof subst_types / sizeof subst_types[0];
 
@@ -219,13 +241,15 @@ static std::string dev_str(const Dev &x) {
     else if (x.op == OP_FLIP || x.op == OP_WRONGKEYS || x.op == OP_APPDATA || x.op == OP_SPAN) s += fmt(":%d", x.param);
     return s;
 }
-static Item foreign_item(int f, int keys) {
+static Item foreign_item(int f, int keys, bool server_hello = true) {
     switch (f) {
     case F_SKE: return hs_item(p13::M_SERVER_KEY_EXCHANGE, keys); case F_SHD: return hs_item(p13::M_SERVER_HELLO_DONE, keys); case F_CKE: return hs_item(p13::M_CLIENT_KEY_EXCHANGE, keys);
     case F_HELLO_REQUEST: return hs_item(p13::M_HELLO_REQUEST, keys); case F_KEY_UPDATE: return hs_item(p13::M_KEY_UPDATE, keys); case F_EOED: return hs_item(p13::M_END_OF_EARLY_DATA, keys);
     case F_NST: return hs_item(p13::M_NEW_SESSION_TICKET, keys); case F_CERT_REQ: return hs_item(p13::M_CERTIFICATE_REQUEST, keys); case F_CH2: return hs_item(p13::M_CLIENT_HELLO, keys);
     case F_SH2: return hs_item(p13::M_SERVER_HELLO, keys); case F_EE: return hs_item(p13::M_ENCRYPTED_EXTENSIONS, keys); case F_CERT: return hs_item(p13::M_CERTIFICATE, keys);
     case F_CV: return hs_item(p13::M_CERTIFICATE_VERIFY, keys); case F_FIN: return hs_item(p13::M_FINISHED, keys); case F_UNKNOWN: return raw_hs_item(99, Bytes{ 1, 2, 3 }, keys);
+    case F_JUNK_HELLO: {   // a two-byte message with the hello type the victim waits for; not recorded in the puppet's transcript
+        Item it = raw_hs_item(server_hello ? p13::HS_SERVER_HELLO : p13::HS_CLIENT_HELLO, Bytes{ 3, 3 }, keys); it.malformed = true; it.st.in_transcript = false; return it; }
     default: return raw_hs_item(p13::HS_MESSAGE_HASH, Bytes(32, 0x11), keys);
     }
 }
@@ -246,7 +270,10 @@ static bool apply_dev(std::vector<Item> &v, const Dev &x) {
     case OP_DUP: { if (pos >= n) return false; Item c = v[pos]; c.deviated = true; v.insert(v.begin() + pos + 1, c); return true; }
     case OP_SWAP: if (pos + 1 >= n) return false; std::swap(v[pos], v[pos + 1]); v[pos].deviated = v[pos + 1].deviated = true; return true;
     case OP_SUBST: { if (pos >= n || v[pos].kind != K_HS) return false; int ty = subst_types[x.param % N_SUBST]; if (ty == v[pos].wire_type()) return false; v[pos].st.type_override = ty; v[pos].deviated = true; return true; }
-    case OP_INJECT: { if (pos > n) return false; Item f = foreign_item(x.param % F_N, epoch_at(v, pos)); f.deviated = true; v.insert(v.begin() + pos, f); return true; }
+    case OP_INJECT: {
+        if (pos > n) return false;
+        bool to_client = find_body(v, p13::HS_CLIENT_HELLO) < 0;   // the trace goes to a client victim iff it carries no ClientHello (deleted hello: assume client)
+        Item f = foreign_item(x.param % F_N, epoch_at(v, pos), to_client); f.deviated = true; v.insert(v.begin() + pos, f); return true; }
     case OP_FLIP: {   // pos selects Finished (0) or CertificateVerify (1); param = bit, bit 30 of param = include the header
         int i = find_body(v, pos == 0 ? p13::HS_FINISHED : p13::HS_CERTIFICATE_VERIFY); if (i < 0) return false;
         v[i].st.flip_bit = x.param & 0xffff; v[i].st.flip_body_only = !(x.param & 0x10000); v[i].deviated = true; return true; }
@@ -298,7 +325,8 @@ static std::vector<Dev> all_singles(const Dom &d) {
     r.push_back({ OP_SKIP_AUTH, 0, 0 }); r.push_back({ OP_EMPTY_CERT, 0, 0 }); for (int k = 0; k < 3; k++) r.push_back({ OP_SPAN, 0, k });
     return r;
 }
-static const Dom DOMS[8] = { { true, false, 0 }, { true, false, 1 }, { true, true, 0 }, { true, true, 1 }, { false, false, 0 }, { false, false, 1 }, { false, true, 0 }, { false, true, 1 } };
+static const Dom DOMS[8] = { { true, false, 0, false }, { true, false, 1, false }, { true, true, 0, false }, { true, true, 1, false },
+                             { false, false, 0, false }, { false, false, 1, false }, { false, true, 0, false }, { false, true, 1, false } };
 
 // ------------------------------------------------------------------------------------------------ one run
 struct Var {                 // legal variations, independent of the deviations
@@ -329,10 +357,15 @@ static Result execute(const Dom &d, std::vector<Item> &items, const Var &var, Ct
     vc.client = d.vclient; vc.versions = { TLS13 }; vc.suites = { 0x1301 }; vc.auth = d.cert ? AUTH_EC : AUTH_RSA;
     vc.client_auth = d.vclient ? (d.cauth && var.victim_identity) : d.cauth;
     vc.cert_cb = cb_strict; vc.entropy_stream = 1;
-    bool x = var.x25519;
-    vc.tweak = [x](sslSessOpts_t &o) { if (x) { uint16_t g[2] = { 0x001d, 0x0017 }; matrixSslSessOptsSetKeyExGroups(&o, g, 2, 1); } };
+    // key exchange groups.  No HRR: both sides prefer the same group.  HRR, client victim: the puppet server insists on the group the victim sent no
+    // share for.  HRR, server victim: the victim only supports the group the puppet client sent no share for.
+    bool x = var.x25519; bool only = !d.vclient && d.hrr;
+    vc.tweak = [x, only](sslSessOpts_t &o) {
+        uint16_t g[2] = { (uint16_t) (x ? 0x001d : 0x0017), (uint16_t) (x ? 0x0017 : 0x001d) };
+        if (only) matrixSslSessOptsSetKeyExGroups(&o, g, 1, 1); else if (x) matrixSslSessOptsSetKeyExGroups(&o, g, 2, 1);
+    };
     // ---- puppet
-    p13::Config pc; pc.server = d.vclient; pc.seed = 77 + var.seed; pc.group = var.x25519 ? p13::GROUP_X25519 : p13::GROUP_SECP256R1;
+    p13::Config pc; pc.server = d.vclient; pc.seed = 77 + var.seed; pc.group = (var.x25519 != d.hrr) ? p13::GROUP_X25519 : p13::GROUP_SECP256R1;
     pc.identity = ident(d.vclient, d.cert); pc.trace = c.verbose;
     p13::Puppet P(pc);
 
@@ -359,9 +392,10 @@ static Result execute(const Dom &d, std::vector<Item> &items, const Var &var, Ct
     // ---- send the script
     int first_dev = -1; for (int i = 0; i < (int) items.size(); i++) if (items[i].deviated) { first_dev = i; break; }
     int group_start = 0;
+    int first_hs = -1; for (int i = 0; i < (int) items.size(); i++) if (items[i].kind == K_HS) { first_hs = i; break; }
     for (int i = 0; i < (int) items.size(); i++) {
         Step st = items[i].st;
-        if (items[i].kind == K_HS && (items[i].body == p13::HS_CLIENT_HELLO || items[i].body == p13::HS_SERVER_HELLO) && st.keys == p13::EP_PLAIN) st.rec_version = var.hello_rec_version;
+        if (i == first_hs && (items[i].body == p13::HS_CLIENT_HELLO || items[i].body == p13::HS_SERVER_HELLO) && st.keys == p13::EP_PLAIN) st.rec_version = var.hello_rec_version;   // 0x0301 is allowed on an initial hello only
         if (v.accepts() && i > v.complete_at) { legit_phase = true; if (items[i].kind == K_APPDATA && st.keys == p13::EP_APP) legit_sent.insert(legit_sent.end(), st.payload.begin(), st.payload.end()); }
         Bytes wire = P.emit(st);
         if (wire.empty() && i + 1 < (int) items.size()) continue;
@@ -372,7 +406,8 @@ static Result execute(const Dom &d, std::vector<Item> &items, const Var &var, Ct
         if (v_strict.soft >= group_start && v_strict.soft <= i && v.first_bad == v_strict.soft && alive_before && !is_dead(V)) { v = v_lenient; c.count("lenient-parse:foreign-body-accepted-as-" + std::string(p13::hs_type_name(items[v_strict.soft].wire_type()))); }
         check_incomplete(i);
         pump();
-        if (v.first_bad >= group_start && v.first_bad <= i && v.immediate && alive_before)
+        static const bool no_immediate = getenv("C06_NO_IMMEDIATE") != nullptr;   // diagnosis only: see what a tolerated illegal item leads to
+        if (v.first_bad >= group_start && v.first_bad <= i && v.immediate && alive_before && !no_immediate)
             VF_CHECK(is_dead(V), sig(root_sig(v.why, false).c_str()), "item %d (%s: %s) is outside the legal language but the victim neither queued a fatal alert nor returned an error when it arrived (last rc %d); %s",
                      v.first_bad, item_str(items[v.first_bad]).c_str(), v.why.c_str(), V.last_rc, desc.c_str());
         if (v.accepts() && v.complete_at >= group_start && v.complete_at <= i) {
@@ -442,6 +477,13 @@ static void selftest(Ctx &c) {
         Result r = execute(d, items, var, c, desc, true);
         if (!r.completed) VF_FAIL("harness-puppet-selftest", "un-deviated script did not complete; %s", desc.c_str());
     }
+    for (int k = 0; k < 2; k++) {   // HelloRetryRequest round, one per role
+        Dom d = { k == 0, k == 1, k, true }; std::vector<Item> items = legal_trace(d);
+        Var var; var.seed = 200 + k; var.x25519 = k;
+        std::string desc = "selftest " + dom_str(d);
+        Result r = execute(d, items, var, c, desc, true);
+        if (!r.completed) VF_FAIL("harness-puppet-selftest", "un-deviated HelloRetryRequest script did not complete; %s", desc.c_str());
+    }
 }
 
 // ------------------------------------------------------------------------------------------------ generator
@@ -479,6 +521,7 @@ static void prop(Tape &t, Ctx &c) {
     bool vary = false;
 #else
     Dom d = DOMS[t.below(8)];
+    d.hrr = t.chance(1, 4);
     std::vector<Dev> singles = all_singles(d);
     unsigned nsel = (unsigned) t.below(20); int ndev = nsel < 1 ? 0 : nsel < 15 ? 1 : 2;
     std::vector<Dev> chosen;
@@ -516,7 +559,7 @@ static void prop(Tape &t, Ctx &c) {
 
     Result r = execute(d, items, var, c, desc);
 
-    c.count(std::string("victim:") + (d.vclient ? "client" : "server"));
+    c.count(std::string("victim:") + (d.vclient ? "client" : "server") + (d.hrr ? "+hrr" : ""));
     c.count(fmt("deviations:%zu", applied.size()));
     c.count(v.accepts() ? "model:legal" : "model:illegal");
     if (!v.accepts()) c.count("illegal:" + (v.first_bad >= 0 ? v.why : std::string("missing-finished")));
@@ -525,7 +568,7 @@ static void prop(Tape &t, Ctx &c) {
     if (!v.accepts()) c.count(fmt("victim-alert:%d", r.alert));
     if (r.reached) {
         c.count("deviation-position-reached");
-        std::string key = fmt("%d|%d|%d", d.vclient, d.cauth, d.cert);
+        std::string key = fmt("%d|%d|%d|%d", d.vclient, d.cauth, d.cert, d.hrr);
         for (auto &x : applied) key += fmt("|%d@%d", x.op, x.pos);
         if (!applied.empty()) c.nontrivial(key);
     } else c.count("deviation-position-not-reached");
